@@ -30,7 +30,7 @@ def run(ctx):
     F = ctx.facts
     w1(ctx, Fr, F)
     before, nv = len(ctx.instances), len(ctx.violations)
-    p04.rule_k6(ctx, F)
+    p04.rule_k6(ctx, F, parts=("rank", "final"))
     relabel(ctx, before, nv, "C17.W2")
     w3(ctx, F)
     w4_w5(ctx, F)
@@ -279,11 +279,14 @@ def w3(ctx, F):
         names = hir.pat_names(a["pat"])
         cnt = None
         for n, anc in hir.walk(a["body"]):
+            t = None
             if n.get("k") == "SLet" and n["pat"].get("k") == "PBind" and n.get("init") is not None:
                 t = sym(n["init"])
-                if any(hir.contains(t, ("var", nm)) for nm in names) or hir.contains(t, scr):
-                    cnt = (n["pat"]["name"], t)
-                    break
+            elif n.get("k") == "AssignOp" and n["op"] == "+=":
+                t = sym(n["r"])
+            if t is not None and (any(hir.contains(t, ("var", nm)) for nm in names) or hir.contains(t, scr)):
+                cnt = ("count", t)
+                break
         bad = []
         if cnt:
             for d in sorted(digits_ok):
